@@ -148,7 +148,7 @@ def state_queries(kind, kind2, n, states, pid, traps_on, exporters):
     for key, state, witness in states:
         core.guard(t, pid, {"engine": "E1", "module": "mc.lockstep", "part": "state_queries", "kind": kind, "kind2": kind2, "n": n,
                             "witness": [list(w) for w in witness], "traps": traps_on, "exporters": exporters},
-                   _state_query_one, t, kind, kind2, n, key, state, witness, pid, traps_on, exporters)
+                   _state_query_one, t, kind, kind2, n, key, state, witness, pid, traps_on, exporters, _limit=20)
     return t
 
 
@@ -185,7 +185,7 @@ def shape_queries(kind, kind2, shapes, pid, traps_on, exporters):
     for shape in shapes:
         core.guard(t, pid, {"engine": "E2", "module": "mc.lockstep", "part": "shape_queries", "kind": kind, "kind2": kind2,
                             "shape": shape, "traps": traps_on, "exporters": exporters},
-                   _shape_query_one, t, kind, kind2, shape, pid, traps_on, exporters)
+                   _shape_query_one, t, kind, kind2, shape, pid, traps_on, exporters, _limit=20)
     return t
 
 
